@@ -3,7 +3,7 @@
    argument: code point 1 separates the fields of a record, 2 terminates the items of a list,
    3 terminates the items of an outer / nested list, 4 separates the halves of a pair inside a
    list item.  The conventions are mirrored in harness/check_C15.py and harness/impl/c15.py. *)
-From MV Require Import Base.Strs Intro.Path Intro.Model Intro.Spec Intro.Judge Intro.Options.
+From MV Require Import Base.Strs Intro.Path Intro.Model Intro.Spec Intro.Judge Intro.Options Intro.Tests.
 Open Scope N_scope.
 
 Definition fields (s : str) : list str := split_on 1 s.
@@ -164,6 +164,28 @@ Definition dec_store (opts augs : str) : store :=
   {| s_options := map (fun x => dec_optobj (fields x)) (unlist 2 opts);
      s_augments := map (fun x => let f := fields x in (dec_okey (nth_f 0 f) (nth_f 1 f), nth_f 2 f)) (unlist 2 augs) |}.
 
+(* ------------------------------------------------------------------ test serialisation *)
+(* one argument per TestSerialisation, fields separated by 1:
+   name, suite (list 3), fname (list 3), cmd_args (list 3), workdir (opt), timeout (opt), is_parallel,
+   priority, protocol, depends (list 3), extra_paths (list 3), unset (list 3),
+   operations (list 3 of  op 4 name 4 separator 4 values(list 5)) *)
+Definition dec_envop4 (s : str) : envop * str * list str * str :=
+  let f := split_on 4 s in
+  let op := match nth_f 0 f with [97] => EnvAppend | [112] => EnvPrepend | _ => EnvSet end in
+  (op, nth_f 1 f, unlist 5 (nth_f 3 f), nth_f 2 f).
+Definition dec_tser (s : str) : tser :=
+  let f := fields s in
+  {| s_name := nth_f 0 f; s_suite := unlist 3 (nth_f 1 f); s_fname := unlist 3 (nth_f 2 f);
+     s_cmd_args := unlist 3 (nth_f 3 f);
+     s_env := {| ev_ops := map dec_envop4 (unlist 3 (nth_f 12 f)); ev_unset := unlist 3 (nth_f 11 f) |};
+     s_workdir := dec_opt (nth_f 4 f); s_timeout := dec_opt (nth_f 5 f); s_is_parallel := dec_bool (nth_f 6 f);
+     s_priority := nth_f 7 f; s_protocol := nth_f 8 f; s_depends := unlist 3 (nth_f 9 f);
+     s_extra_paths := unlist 3 (nth_f 10 f) |}.
+Definition render_tintro (e : tintro) : str :=
+  join [1] [enlist 3 (i_cmd e); enlist 3 (map (fun kv => fst kv ++ [4] ++ snd kv) (i_env e)); i_name e;
+            enc_opt (i_workdir e); enc_opt (i_timeout e); enlist 3 (i_suite e); bool_str (i_is_parallel e);
+            i_priority e; i_protocol e; enlist 3 (i_depends e); enlist 3 (i_extra_paths e)].
+
 Definition run (fn : str) (args : list str) : str :=
   if str_eqb fn (s2l "join") then
     match args with a :: ps => pjoin a ps | _ => s2l "?" end
@@ -209,6 +231,8 @@ Definition run (fn : str) (args : list str) : str :=
     match args with base :: unset :: ops => render_installed (mtest_env (mk_test (dec_envvars unset ops)) (dec_dict base)) | _ => s2l "?" end
   else if str_eqb fn (s2l "suite") then
     match args with [suites; sels] => bool_str (test_in_suites (unlist 2 suites) (unlist 2 sels)) | _ => s2l "?" end
+  else if str_eqb fn (s2l "testintro") then
+    enlist 2 (map render_tintro (intro_tests (map dec_tser args)))
   else if str_eqb fn (s2l "reported") then
     (* what intro-buildoptions.json says option n is for (sub)project sp *)
     match args with [opts; augs; sp; n] => enc_opt (reported (list_buildoptions (dec_store opts augs)) sp n) | _ => s2l "?" end
